@@ -1571,6 +1571,12 @@ def main(R):
         R.count("torch:" + ("legal" if r["tor"] != "reject" else "illegal") + "/tensordict:" + r["impl"][0])
         if r.get("restricted"):
             R.count("outside-common-domain(restriction)")
+        elif r["tor"] != "reject" and not r["fails"] and c["cont"] in MODELLED_CONT and not c.get("out") \
+                and not (op in ("view", "reshape") and -1 in c["args"]["shape"]) \
+                and not (op == "repeat_interleave" and (c["args"]["dim"] is None or not bs)):
+            # torch-legal, inside tensordict's domain, outside the recorded defects: the hypotheses of the C02_* theorems hold
+            R.count("inside-theorem-domain")
+            R.count("inside-theorem-domain:" + op)
         if r["impl"][0] == "unbuildable":
             continue
         # (S) my spec of torch against real torch
